@@ -1,6 +1,6 @@
 (** C15 -- script arguments, functions, source, exit statuses. Statements only. *)
-From Cicada Require Import Base.Chars Base.Peg Gen.LocustGrammar Model.Script Model.ScriptAst Model.Args
-  Proofs.ArgsProofs Proofs.SetEProofs.
+From Cicada Require Import Base.Chars Base.Peg Gen.LocustGrammar Model.Script Model.ScriptAst Model.Args Model.ShellScript
+  Proofs.ArgsProofs Proofs.SetEProofs Proofs.ScriptProofs.
 From Coq Require Import ZArith String Ascii.
 
 Definition S2 (s : string) : str := map N_of_ascii (list_ascii_of_string s).
@@ -50,13 +50,31 @@ Proof.
   - apply expand_single_newline. reflexivity.
 Qed.
 
-(** 2. Status of a function call: try_run_func builds a fresh CommandResult, so
-    the status is 0 whatever the body returned -- the property asks for the
-    status of the last command executed. *)
+(** 2. Status of a function call (try_run_func, repaired in ec16ecd): the status of the last
+    CommandResult of the body's run_lines, 0 if there is none (also after a syntax error in the body).
+    With C14_interp: for every well-formed body it is the status of the last pipeline of the last
+    command that the structured semantics executes in the body. *)
 Definition func_status_full : Prop := forall crs, func_call_status crs = script_status crs.
-Theorem C15_func_status_refuted : (forall crs, func_call_status crs = 0%Z) /\ ~ func_status_full.
+Theorem C15_func_status_list : func_status_full.
+Proof. exact func_status_last. Qed.
+
+Definition func_call_result {W : Type} (o : option (outcome W)) : Z :=
+  match o with Some (Done _ crs _ _) => func_call_status crs | _ => 0%Z end.
+
+Theorem C15_func_status :
+  forall (W : Type) (run_line : W -> str -> W * list Z) (for_words : W -> str -> W * list str)
+         (set_var : W -> str -> str -> W) (eoe : W -> bool) (n : nat),
+  (forall w, eoe w = false) ->
+  forall b, wf_block b = true -> forall d w r txt, (depth_block b < d)%nat ->
+  func_call_result (Some (run_exp W run_line for_words set_var eoe n d (TNode r txt (kids_of_block b)) false w)) =
+  match sem_block W run_line for_words set_var n b false w with
+  | Done _ crs _ _ => last_or_zero crs
+  | _ => 0%Z
+  end.
 Proof.
-  split; [exact func_status_always_zero|]. intro H. specialize (H [1%Z]). discriminate H.
+  intros W run_line for_words set_var eoe n He b Hwf d w r txt Hd.
+  rewrite (ScriptProofs.run_exp_sem W run_line for_words set_var eoe n He b Hwf d false w r txt Hd).
+  destruct (sem_block W run_line for_words set_var n b false w); reflexivity.
 Qed.
 
 (** 3. set -e. In a flat script (commands only) the transcribed loop, with
@@ -95,12 +113,60 @@ Theorem C15_sete_nested_refuted :
   /\ ~ sete_full.
 Proof. split; [vm_compute; reflexivity|]. unfold sete_full. vm_compute. discriminate. Qed.
 
+(** 3b. set -e with function calls and `source`: exit_on_error and the function table are shell
+    state threaded through run_script / run_lines / try_run_func (Model/ShellScript.v), the flag
+    being reset where the code resets it (end of run_script). INSTANCES computed on that model
+    (the unbounded statement over all flat scripts with calls is NOT proved; the model is tied to
+    the binary by layer L2b on every run, 120 / 600 generated scripts):
+    A  a successful call between `set -e` and the failing command: the script ends at `fail7`, status 7;
+    B  the failing command inside the called function: the body is left at once and so is the script;
+    C  (refutation) a `source` between them: run_script's reset clears the flag, `notreached` runs, status 0. *)
+Definition ex_ext (l : str) : Z := if str_eqb l (S2 "fail7") then 7%Z else 0%Z.
+Definition ex_files (p : str) : option str :=
+  if str_eqb p (S2 "a.sh") then Some (S2 "function ok_fn {
+  in_fn
+}
+set -e
+one
+ok_fn a
+two
+fail7
+notreached
+") else if str_eqb p (S2 "b.sh") then Some (S2 "function bad-fn() {
+  start
+  fail7
+  fn_notreached
+}
+set -e
+one
+bad-fn
+notreached
+") else if str_eqb p (S2 "c.sh") then Some (S2 "set -e
+one
+source lib.sh
+two
+fail7
+notreached
+") else if str_eqb p (S2 "lib.sh") then Some (S2 "in_lib
+") else None.
+Definition ex_run (p : string) : list str * Z :=
+  let '(w, st) := run_script ex_ext ex_files 8 30 (mk_shs false nil nil) (S2 p) in (s_log w, st).
+
+Theorem C15_sete_calls_instances :
+  ex_run "a.sh" = ([S2 "one"; S2 "in_fn"; S2 "two"; S2 "fail7"], 7%Z) /\
+  ex_run "b.sh" = ([S2 "one"; S2 "start"; S2 "fail7"], 7%Z).
+Proof. vm_compute. split; reflexivity. Qed.
+
+Theorem C15_sete_source_refuted :
+  ex_run "c.sh" = ([S2 "one"; S2 "in_lib"; S2 "two"; S2 "fail7"; S2 "notreached"], 0%Z).
+Proof. vm_compute. reflexivity. Qed.
+
 (** The property, in full, and its refutation on the faithful model. *)
 Definition C15_full : Prop :=
   (forall args token out, Subst args token out -> expand_args_for_single_token token args = Ok out)
   /\ func_status_full /\ sete_full.
 Theorem C15_refuted : ~ C15_full.
-Proof. intros [_ [H _]]. exact (proj2 C15_func_status_refuted H). Qed.
+Proof. intros [_ [_ H]]. exact (proj2 C15_sete_nested_refuted H). Qed.
 
 (** Function table: both header spellings, names with - and _, body lines kept verbatim. *)
 Example C15_function_table :
@@ -133,7 +199,10 @@ Qed.
 
 Print Assumptions C15_args.
 Print Assumptions C15_args_newline_refuted.
-Print Assumptions C15_func_status_refuted.
+Print Assumptions C15_func_status.
+Print Assumptions C15_func_status_list.
 Print Assumptions C15_sete_flat.
 Print Assumptions C15_sete_nested_refuted.
 Print Assumptions C15_refuted.
+Print Assumptions C15_sete_calls_instances.
+Print Assumptions C15_sete_source_refuted.
